@@ -47,7 +47,7 @@ PROP = dict(
         "on the true statistics after max(MinSamples,2) samples; estimateVariance is the unbiased sample variance; mapCoordinates hands every pixel index to exactly "
         "one worker for every worker count and interleaving and the image does not depend on the schedule; Uncaster inverts Caster for every camera/aspect/fov; "
         "DirectionalCamera's result contains the box; Joined/Filtered/BVH casts return the nearest hit among the leaves; Translate/MatrixMultiply cast exactly the "
-        "transformed surface (same parameter, image point, conformal normal); a closed uniform emitter renders to its emission; a lit matte surface renders to its closed form at MaxDepth 0 and, with one bounce onto an emitter chosen through FocusPoints, to emission + L*BSDF*cos/mixture-density, the mixture density being the density of the selection rule (exact unbiasedness over finite direction sets); the bidirectional tracer's balance-heuristic weights sum to one and its roulette compensation is unbiased; DirectionalCamera's bisection invariants; Image Set/CopyFrom/Downsample write each pixel as specified (block mean). The models are tied to /repo on every "
+        "transformed surface (same parameter, image point, inverse-transpose normal); a closed uniform emitter renders to its emission; a lit matte surface renders to its closed form at MaxDepth 0 and, with one bounce onto an emitter chosen through FocusPoints, to emission + L*BSDF*cos/mixture-density, the mixture density being the density of the selection rule (exact unbiasedness over finite direction sets); the bidirectional tracer's balance-heuristic weights sum to one and its roulette compensation is unbiased; DirectionalCamera's bisection invariants; Image Set/CopyFrom/Downsample write each pixel as specified (block mean). The models are tied to /repo on every "
         "run by running the real code (hooks under build tag verif) and the same models on generated inputs: equality over Q on dyadic data, bit-for-bit over doubles."
     ),
     level_note=(
